@@ -156,7 +156,7 @@ func c14R1(p *core.Prog, r *core.Report) {
 	}
 	var req ssa.Instruction
 	core.Calls(rm, func(c ssa.CallInstruction) {
-		if g := core.CalleeFn(c); g != nil && g.Name() == "blobMount" {
+		if g := core.CalleeFn(c); g != nil && canon(g) == "blobMount" {
 			req = c.(ssa.Instruction)
 		}
 	})
@@ -363,10 +363,10 @@ func c14R3(p *core.Prog, r *core.Report) {
 			// classify the goroutine: copies a blob of this manifest or an entry of this index? (the body
 			// may call an unexported helper that does it)
 			content := false
-			hs := core.HelpersExcept(task, 2, func(h *ssa.Function) bool { return h == trav || h.Name() == "imageCopyBlob" })
+			hs := core.HelpersExcept(task, 2, func(h *ssa.Function) bool { return h == trav || canon(h) == "imageCopyBlob" })
 			for _, f := range sortedFuncs(hs) {
 				core.Calls(f, func(c ssa.CallInstruction) {
-					if gfn := core.CalleeFn(c); gfn != nil && gfn.Name() == "imageCopyBlob" {
+					if gfn := core.CalleeFn(c); gfn != nil && canon(gfn) == "imageCopyBlob" {
 						content = true
 					}
 					if core.CalleeFn(c) == trav {
